@@ -91,6 +91,7 @@ func genC06(r *simrt.Rand, tier string, idx int) *hx.Program {
 	if r.Pct(25) {
 		p.P["obscoord"] = 1 // FSM nodes coordinate groups (member timers exist; the default timeout never fires)
 	}
+	fsmResumeAllShare(p, r)
 	return p
 }
 
